@@ -390,3 +390,164 @@ Lemma cut_in_block_is_error_c colvars biases l0 kw b :
   unclosed 1 b = true -> claimed colvars biases kw b ->
   load_c colvars biases l0 = true.
 Proof. apply cut_in_block_is_error. exact data_wellformed_c. Qed.
+
+(* ================================================================ whole files *)
+(* reading a complete block does not depend on what follows it *)
+Lemma block_contents_app : forall c k rest, bal k c = true ->
+  block_contents (S k) (c ++ TC :: rest) = Some (c, rest).
+Proof.
+  induction c as [|t c IH]; intros k rest H.
+  - cbn [bal] in H. apply Nat.eqb_eq in H. subst k. reflexivity.
+  - destruct t as [| |w]; cbn [bal] in H; cbn [app block_contents].
+    + now rewrite (IH (S k) rest H).
+    + destruct k as [|k']; [discriminate|]. now rewrite (IH k' rest H).
+    + now rewrite (IH k rest H).
+Qed.
+
+Lemma read_block_app key c rest : bal 0 c = true ->
+  read_block (TW key) (TW key :: TO :: c ++ TC :: rest) = Some (c, rest).
+Proof. intros H. unfold read_block. cbn [tok_eqb]. rewrite N.eqb_refl. now apply block_contents_app. Qed.
+
+Definition is_word (t : tok) : Prop := match t with TW _ => True | _ => False end.
+
+Lemma take_words_app : forall ws rest, Forall is_word ws -> take_words (length ws) (ws ++ rest) = Some rest.
+Proof.
+  induction ws as [|t ws IH]; intros rest H; [reflexivity|].
+  inversion H as [|? ? Ht Hws]; subst. destruct t; try contradiction. cbn [length take_words app]. now apply IH.
+Qed.
+
+(* the pieces of a bias's data, as written: keys, arrays of numbers, brace blocks *)
+Inductive layout_match : list delem -> list tok -> Prop :=
+| LM_nil : layout_match [] []
+| LM_key w es d : layout_match es d -> layout_match (DKey w :: es) (TW w :: d)
+| LM_words ws es d : Forall is_word ws -> layout_match es d -> layout_match (DWords (length ws) :: es) (ws ++ d)
+| LM_block w c es d : bal 0 c = true -> layout_match es d -> layout_match (DBlock w :: es) (TW w :: TO :: c ++ TC :: d).
+
+Lemma read_layout_app es d : layout_match es d -> forall rest, read_layout es (d ++ rest) = Some rest.
+Proof.
+  induction 1 as [| w es d Hm IH | ws es d Hw Hm IH | w c es d Hb Hm IH]; intros rest.
+  - reflexivity.
+  - cbn [read_layout app]. now rewrite N.eqb_refl.
+  - cbn [read_layout]. rewrite <- app_assoc. rewrite (take_words_app ws (d ++ rest) Hw). apply IH.
+  - cbn [read_layout app]. rewrite N.eqb_refl. rewrite <- app_assoc. cbn [app].
+    rewrite (block_contents_app c 0 (d ++ rest) Hb). apply IH.
+Qed.
+
+(* a hill as written: "hill" "{" words "}" *)
+Definition hill_toks (ws : list tok) : list tok := TW KW_hill :: TO :: ws ++ [TC].
+
+Lemma hill_words_app : forall ws rest, Forall is_word ws -> hill_words (ws ++ TC :: rest) = Some rest.
+Proof.
+  induction ws as [|t ws IH]; intros rest H; [reflexivity|].
+  inversion H as [|? ? Ht Hws]; subst. destruct t; try contradiction. cbn [app hill_words]. now apply IH.
+Qed.
+
+Lemma read_hills_app : forall hs fuel rest, Forall (Forall is_word) hs -> (length hs < fuel)%nat ->
+  read_hills fuel (concat (map hill_toks hs) ++ TC :: rest) = (TC :: rest, false).
+Proof.
+  induction hs as [|ws hs IH]; intros fuel rest H Hf.
+  - destruct fuel as [|f]; [cbn in Hf; lia|]. reflexivity.
+  - inversion H as [|? ? Hws Hhs]; subst. destruct fuel as [|f]; [cbn in Hf; lia|].
+    cbn [map concat]. unfold hill_toks at 1. cbn [app read_hills]. rewrite N.eqb_refl.
+    rewrite <- !app_assoc. cbn [app]. rewrite (hill_words_app ws _ Hws).
+    apply IH; [exact Hhs | cbn [length] in Hf; lia].
+Qed.
+
+(* the data of a bias, as written, are read back whatever follows the closing brace of its block *)
+Definition data_match (b : bias) (data : list tok) : Prop :=
+  exists dl hs, layout_match (b_layout b) dl /\ Forall (Forall is_word) hs /\
+                data = dl ++ concat (map hill_toks hs) /\ (b_kind b <> 1%nat -> hs = []).
+
+Lemma length_hills_le hs : (length hs <= length (concat (map hill_toks hs)))%nat.
+Proof.
+  induction hs as [|ws hs IH]; [cbn; lia|]. cbn [map concat length]. rewrite app_length. unfold hill_toks at 1. cbn [length]. lia.
+Qed.
+
+Lemma read_data_c_app b data rest : data_match b data ->
+  read_data_c b (data ++ TC :: rest) = (Some (TC :: rest), false).
+Proof.
+  intros (dl & hs & Hl & Hw & -> & Hk). unfold read_data_c. rewrite <- app_assoc.
+  rewrite (read_layout_app _ _ Hl).
+  destruct (b_kind b) as [|[|k]] eqn:Ek.
+  - rewrite (Hk ltac:(discriminate)). reflexivity.
+  - rewrite (read_hills_app hs _ rest Hw); [reflexivity|].
+    rewrite app_length. cbn [length]. pose proof (length_hills_le hs). lia.
+  - rewrite (Hk ltac:(discriminate)). reflexivity.
+Qed.
+
+Section WholeFile.
+  Variable colvars : list N.
+  Variable biases : list bias.
+  Notation step_c := (step cv_ok_c params_ok_c read_data_c colvars biases).
+
+  (* an object of the file that the configured objects read completely, whatever follows *)
+  Definition valid_obj (o : list tok) : Prop := o <> [] /\ forall rest, step_c (o ++ rest) = Next rest false.
+
+  (* a variable's block, as written for a configured variable *)
+  Lemma cv_block_valid n conf : In n colvars -> bal 0 conf = true ->
+    lookup KW_name 0 conf = Some (TW n) -> cv_ok_c n conf = true ->
+    valid_obj (TW KW_colvar :: TO :: conf ++ [TC]).
+  Proof.
+    intros Hin Hb Hn Hok. split; [discriminate|]. intros rest.
+    unfold StateReadModel.step. cbn [app tok_eqb]. rewrite N.eqb_refl.
+    assert (Hrb : read_block (TW KW_colvar) (TW KW_colvar :: TO :: (conf ++ [TC]) ++ rest) = Some (conf, rest)).
+    { rewrite <- app_assoc. cbn [app]. now apply read_block_app. }
+    assert (Ht : try_colvars cv_ok_c colvars (TW KW_colvar :: TO :: (conf ++ [TC]) ++ rest) = Some (Next rest false)).
+    { clear - Hin Hrb Hn Hok. induction colvars as [|n' cvs IH]; [destruct Hin|].
+      cbn [StateReadModel.try_colvars]. unfold StateReadModel.cv_read. rewrite Hrb, Hn. cbn [tok_eqb].
+      destruct (n =? n') eqn:E.
+      - apply N.eqb_eq in E. subst n'. unfold cv_ok_c in *. destruct (lookup KW_x 0 conf); [reflexivity | discriminate].
+      - destruct Hin as [->|Hin]; [rewrite N.eqb_refl in E; discriminate|]. now apply IH. }
+    now rewrite Ht.
+  Qed.
+
+  (* a bias's block, as written for a configured bias whose name no other bias of that keyword has *)
+  Lemma bias_block_valid b kw conf data : In b biases -> kw <> KW_colvar -> claims b (TW kw) = true ->
+    (forall b', In b' biases -> claims b' (TW kw) = true -> b_name b' = b_name b -> b' = b) ->
+    bal 0 conf = true -> lookup KW_name 0 conf = Some (TW (b_name b)) -> data_match b data ->
+    valid_obj (TW kw :: TO :: TW KW_configuration :: TO :: conf ++ TC :: data ++ [TC]).
+  Proof.
+    intros Hin Hkw Hcl Huniq Hb Hn Hd. split; [discriminate|]. intros rest.
+    unfold StateReadModel.step. cbn [app tok_eqb].
+    replace (kw =? KW_colvar) with false by (symmetry; now apply N.eqb_neq).
+    replace ((conf ++ TC :: data ++ [TC]) ++ rest) with (conf ++ TC :: (data ++ TC :: rest))
+      by (rewrite <- !app_assoc; cbn [app]; now rewrite <- app_assoc).
+    set (l := TW kw :: TO :: TW KW_configuration :: TO :: conf ++ TC :: (data ++ TC :: rest)).
+    assert (Hbr : bias_read params_ok_c read_data_c b l = ORead rest false).
+    { unfold StateReadModel.bias_read, l.
+      rewrite (read_block_app KW_configuration conf _ Hb). rewrite Hn. cbn [tok_eqb]. rewrite N.eqb_refl.
+      unfold params_ok_c. now rewrite (read_data_c_app b data rest Hd). }
+    assert (Hskip : forall b', b_name b' <> b_name b -> bias_read params_ok_c read_data_c b' l = OSkip).
+    { intros b' Hne. unfold StateReadModel.bias_read, l.
+      rewrite (read_block_app KW_configuration conf _ Hb). rewrite Hn. cbn [tok_eqb].
+      replace (b_name b =? b_name b') with false by (symmetry; apply N.eqb_neq; congruence). reflexivity. }
+    assert (Ht : try_biases params_ok_c read_data_c biases (TW kw) l = Some (Next rest false)).
+    { clearbody l. clear - Hin Hcl Huniq Hbr Hskip. induction biases as [|b' bs IH]; [destruct Hin|].
+      cbn [StateReadModel.try_biases]. destruct (claims b' (TW kw)) eqn:Ec.
+      - destruct (N.eq_dec (b_name b') (b_name b)) as [En|En].
+        + assert (b' = b) by (apply Huniq; [now left | exact Ec | exact En]). subst b'. now rewrite Hbr.
+        + rewrite (Hskip b' En). destruct Hin as [->|Hin]; [congruence|].
+          apply IH; [exact Hin|]. intros b'' Hin'' Hc'' Hn''. apply Huniq; [now right | exact Hc'' | exact Hn''].
+      - destruct Hin as [->|Hin]; [congruence|].
+        apply IH; [exact Hin|]. intros b'' Hin'' Hc'' Hn''. apply Huniq; [now right | exact Hc'' | exact Hn'']. }
+    now rewrite Ht.
+  Qed.
+
+  Lemma arrives_objs : forall objs tl, Forall valid_obj objs ->
+    arrives cv_ok_c params_ok_c read_data_c colvars biases (concat objs ++ tl) tl.
+  Proof.
+    induction objs as [|o objs IH]; intros tl H; [apply arr_here|].
+    inversion H as [|? ? [Hne Ho] Hrest]; subst. cbn [concat]. rewrite <- app_assoc.
+    eapply arr_next; [apply Ho | now apply IH].
+  Qed.
+
+  (* a text state: the global block (or none), any number of complete objects, then an object whose block is
+     never closed (the file ends inside it): the load reports an error *)
+  Lemma text_state_cut_is_error gc objs kw b : bal 0 gc = true -> Forall valid_obj objs ->
+    unclosed 1 b = true -> claimed colvars biases kw b ->
+    load_c colvars biases (TW KW_configuration :: TO :: gc ++ TC :: concat objs ++ TW kw :: TO :: b) = true.
+  Proof.
+    intros Hg Hobjs Hu Hc. apply (cut_in_block_is_error_c colvars biases _ kw b); [|exact Hu | exact Hc].
+    unfold objects_part. rewrite (read_block_app KW_configuration gc _ Hg). now apply arrives_objs.
+  Qed.
+End WholeFile.
